@@ -192,7 +192,22 @@ def fragSel (n : Nat) : PI Unit := peek >>= fun k => if k == some Kind.lCurly th
 def fragBody (n : Nat) : PI Unit :=
   bump "fragment_KW" >>= fun _ => fragmentName >>= fun _ => typeCondition >>= fun _ => optKind .at (directives n false) (fragSel n)
 
-theorem fragmentDefinition_eq (n : Nat) : fragmentDefinition n = withNode "FRAGMENT_DEFINITION" (fragBody n) := rfl
+/-- the body of `fragment_definition`: a description in front is reported (`err_and_pop`), then the definition proper -/
+def fragGuard (n : Nat) : PI Unit := optKind .stringValue errAndPop (fragBody n)
+
+theorem fragmentDefinition_eq (n : Nat) : fragmentDefinition n = withNode "FRAGMENT_DEFINITION" (fragGuard n) := rfl
+
+/-- `err_and_pop` followed by anything: never error-free -/
+theorem acc_errAndPop' {α : Type} {E : PState → Prop} {H : List Tok → Prop} (rest : PI α) (hg : Good rest)
+    {R : α → List Ast.Tok → Prop} : Acc E H (errAndPop >>= fun _ => rest) R := by
+  refine ⟨good_bind _ _ good_errAndPop (fun _ => hg), ?_⟩
+  intro s a s' w he _ hr hnd
+  exfalso
+  obtain ⟨_, s1, h1, h2⟩ := bind_dec errAndPop _ s s' a hr
+  have ad := good_errAndPop s () s1 w h1
+  have hnds : ¬ Doomed s := fun dd => hnd ((hg s1 a s' ad.w h2).doom (ad.doom dd))
+  exact hnd ((hg s1 a s' ad.w h2).doom
+    (valueErr_dooms true s s1 w (eofEnd_nonempty s he hnds) (by simpa [valueErr] using h1)))
 
 /-- the head of the queue is the keyword `fragment` (a Name token) -/
 def AtFragmentKw (q : List Tok) : Prop := HeadP (fun t => t.kind = .name ∧ t.data = "fragment".toList) q
@@ -200,13 +215,10 @@ def AtFragmentKw (q : List Tok) : Prop := HeadP (fun t => t.kind = .name ∧ t.d
 def IsFragment (x : List Ast.Tok) : Prop :=
   ∃ name tc dirs sels, sels ≠ Ast.Sels.nil ∧ name ≠ sOnP ∧ x = Ast.tDefinition false (.fragment name tc dirs sels)
 
-theorem acc_fragmentDefinition (n : Nat) :
-    Acc (fun _ => False) AtFragmentKw (fragmentDefinition n) (fun _ => IsFragment) := by
-  rw [fragmentDefinition_eq]
+theorem acc_fragBody (n : Nat) : Acc (fun _ => False) AtFragmentKw (fragBody n) (fun _ => IsFragment) := by
   have hP : TokOk (fun t : Tok => t.kind = .name ∧ t.data = "fragment".toList) (fun x => x = [.name "fragment".toList]) := by
     rintro t ⟨hk, hd⟩
     exact ⟨by rw [hk]; rfl, by rw [hk]; decide, .name "fragment".toList, by simp [astOfV, hk, hd], rfl⟩
-  refine acc_withNode early_false _ (headP_sig hP) ?_
   have hSel : Acc (fun _ => False) (fun _ => True) (fragSel n) (fun _ x => ∃ ss, ss ≠ Ast.Sels.nil ∧ x = Ast.tSelSet ss) :=
     acc_ifKind .lCurly _ _ _ (acc_selectionSet n) acc_err
   have hDirs : Acc (fun _ => False) (fun _ => True) (optKind .at (directives n false) (fragSel n))
@@ -224,5 +236,53 @@ theorem acc_fragmentDefinition (n : Nat) :
   refine ⟨nm, tc, ds, ss, hss, hne, ?_⟩
   rw [e, hx1, e2, hy1, e3, hz1, hz2]
   simp [Ast.tDefinition, sOnP, Ast.sOn]
+
+theorem good_fragBody (n : Nat) : Good (fragBody n) := (acc_fragBody n).1
+
+theorem acc_fragmentDefinition (n : Nat) :
+    Acc (fun _ => False) AtFragmentKw (fragmentDefinition n) (fun _ => IsFragment) := by
+  rw [fragmentDefinition_eq]
+  have hP : TokOk (fun t : Tok => t.kind = .name ∧ t.data = "fragment".toList) (fun x => x = [.name "fragment".toList]) := by
+    rintro t ⟨hk, hd⟩
+    exact ⟨by rw [hk]; rfl, by rw [hk]; decide, .name "fragment".toList, by simp [astOfV, hk, hd], rfl⟩
+  refine acc_withNode early_false _ (headP_sig hP) ?_
+  have hbody := acc_fragBody n
+  -- the description check: the head is the Name `fragment`, so the `err_and_pop` branch is not taken
+  unfold fragGuard optKind
+  apply acc_peek
+  intro k
+  refine acc_ite _ (fun hc => acc_absurd (good_bind _ _ good_errAndPop (fun _ => hbody.1)) ?_)
+    (fun _ => hbody.mono (fun _ h => h.1) (fun _ _ h => h))
+  rintro q ⟨⟨t, hh, hk, _⟩, hkind⟩
+  rw [hh] at hkind
+  simp only [Option.map_some] at hkind
+  rw [← hkind, hk] at hc
+  revert hc; decide
+
+end Apollo.Parse
+
+namespace Apollo.Parse
+open Apollo.Rowan hiding Str
+open Apollo.Lex hiding Str
+
+/-- **`fragment_definition` entered on a description** (a String token — `document()` selects the definition by the
+    token AFTER a description): never error-free. -/
+theorem acc_fragmentDefinition_desc (n : Nat) {R : Unit → List Ast.Tok → Prop} :
+    Acc (fun _ => False) (HeadP (fun t : Tok => t.kind = .stringValue)) (fragmentDefinition n) R := by
+  rw [fragmentDefinition_eq]
+  have hP : TokOk (fun t : Tok => t.kind = .stringValue) (fun x => ∃ d, x = [Ast.Tok.str d]) := by
+    intro t hk
+    exact ⟨by rw [hk]; rfl, by rw [hk]; decide, .str ((Strs.decodeStringToken t.data).getD []), by simp [astOfV, hk], _, rfl⟩
+  refine acc_withNode early_false _ (headP_sig hP) ?_
+  have hg : Good (fragBody n) := good_fragBody n
+  unfold fragGuard optKind
+  apply acc_peek
+  intro k
+  refine acc_ite _ (fun _ => acc_errAndPop' _ hg) (fun hc => acc_absurd hg ?_)
+  rintro q ⟨⟨t, hh, hk⟩, hkind⟩
+  rw [hh] at hkind
+  simp only [Option.map_some] at hkind
+  rw [← hkind, hk] at hc
+  revert hc; decide
 
 end Apollo.Parse
